@@ -19,6 +19,8 @@ type Job struct {
 	Zero          bool      `json:"zero,omitempty"`
 	Cancelled     bool      `json:"cancelled,omitempty"`
 	CompFailAfter int       `json:"comp_fail_after"`
+	Bufio         int       `json:"bufio,omitempty"` // 1..3: render into the runner's long-lived bufio.Writer number Bufio
+	GC            bool      `json:"gc,omitempty"`    // empty the sync.Pools first
 }
 
 // Plain returns a job without faults.
